@@ -15,6 +15,7 @@ PINS = {
     "C07_peek_kind": "forall b k, peek_kind b = Ok k -> exists r, b = kind_byte k :: r",
     "C07_total": "forall b, de_value true b <> Err Fuel /\\ skip_value b <> Err Fuel",
     "C07_key_skip_widths": "forall i, key_skip_width i = int_width i",
+    "C07_no_amplification": "de_value utf8 b = Ok (v, r) -> (vsize v + length r <= length b)%nat",
 }
 SIZES = {"quick": (40000, 8), "thorough": (3000000, 16)}
 
